@@ -2,11 +2,11 @@ import IndicatorVerif.Model.Ring
 /-
   Refinement of the ring buffer to a bounded FIFO (list, oldest first).  Core-only.
 -/
-namespace Ring
+namespace RingBuf
 variable {α : Type}
 
 /-- representation invariant -/
-structure Inv (r : Ring α) : Prop where
+structure Inv (r : RingBuf α) : Prop where
   cap_pos : 0 < r.buffer.length
   begin_lt : r.begin_ < r.buffer.length
   end_lt : r.end_ < r.buffer.length
@@ -18,13 +18,13 @@ theorem mod2 {a c : Nat} (h : a < 2 * c) : a % c = if a < c then a else a - c :=
   · simp [hc]
     rw [Nat.mod_eq_sub_mod (by omega), Nat.mod_eq_of_lt (by omega)]
 
-theorem new_inv (z : α) (n : Nat) (h : 0 < n) : Inv (Ring.new z n) := by
-  constructor <;> simp [Ring.new, h]
+theorem new_inv (z : α) (n : Nat) (h : 0 < n) : Inv (RingBuf.new z n) := by
+  constructor <;> simp [RingBuf.new, h]
 
-theorem new_toList (z : α) (n : Nat) : (Ring.new z n).toList = [] := by
-  simp [Ring.new, toList, count]
+theorem new_toList (z : α) (n : Nat) : (RingBuf.new z n).toList = [] := by
+  simp [RingBuf.new, toList, count]
 
-theorem count_le (r : Ring α) (h : Inv r) : r.count ≤ r.buffer.length := by
+theorem count_le (r : RingBuf α) (h : Inv r) : r.count ≤ r.buffer.length := by
   unfold count
   split
   · omega
@@ -33,12 +33,12 @@ theorem count_le (r : Ring α) (h : Inv r) : r.count ≤ r.buffer.length := by
     · have := h.begin_lt; have := h.end_lt
       rw [mod2 (by omega)]; split <;> omega
 
-theorem toList_length (r : Ring α) : r.toList.length = r.count := by simp [toList]
+theorem toList_length (r : RingBuf α) : r.toList.length = r.count := by simp [toList]
 
 /-- position of the i-th oldest element -/
-def pos (r : Ring α) (i : Nat) : Nat := (r.begin_ + i) % r.buffer.length
+def pos (r : RingBuf α) (i : Nat) : Nat := (r.begin_ + i) % r.buffer.length
 
-theorem isFull_iff (r : Ring α) (h : Inv r) : r.isFull = true ↔ r.count = r.buffer.length := by
+theorem isFull_iff (r : RingBuf α) (h : Inv r) : r.isFull = true ↔ r.count = r.buffer.length := by
   have hb := h.begin_lt; have he := h.end_lt; have hc := h.cap_pos
   unfold isFull count
   by_cases hemp : r.empty = true
@@ -49,7 +49,7 @@ theorem isFull_iff (r : Ring α) (h : Inv r) : r.isFull = true ↔ r.count = r.b
     · simp [hemp, hbe]
       rw [mod2 (by omega)]; split <;> omega
 
-theorem isEmpty_iff (r : Ring α) (h : Inv r) : r.isEmpty = true ↔ r.toList = [] := by
+theorem isEmpty_iff (r : RingBuf α) (h : Inv r) : r.isEmpty = true ↔ r.toList = [] := by
   have hb := h.begin_lt; have he := h.end_lt; have hc := h.cap_pos
   unfold isEmpty
   rw [← List.length_eq_zero_iff, toList_length]
@@ -66,7 +66,7 @@ theorem isEmpty_iff (r : Ring α) (h : Inv r) : r.isEmpty = true ↔ r.toList = 
       rw [mod2 (by omega)]; split <;> omega
 
 /-- the write position is `begin + count` (mod cap) -/
-theorem end_eq (r : Ring α) (h : Inv r) : r.end_ = (r.begin_ + r.count) % r.buffer.length := by
+theorem end_eq (r : RingBuf α) (h : Inv r) : r.end_ = (r.begin_ + r.count) % r.buffer.length := by
   have hb := h.begin_lt; have he := h.end_lt; have hc := h.cap_pos
   unfold count
   by_cases hemp : r.empty = true
@@ -80,11 +80,11 @@ theorem end_eq (r : Ring α) (h : Inv r) : r.end_ = (r.begin_ + r.count) % r.buf
       · rw [mod2 (by omega)]; split <;> omega
       · rw [mod2 (by omega)]; split <;> omega
 
-theorem atIdx_eq (r : Ring α) (i : Nat) (hi : i < r.count) : r.atIdx i = r.toList[i]'(by simpa [toList] using hi) := by
+theorem atIdx_eq (r : RingBuf α) (i : Nat) (hi : i < r.count) : r.atIdx i = r.toList[i]'(by simpa [toList] using hi) := by
   simp [toList, atIdx]
 
 /-- the facts about `count` that the operation proofs use (so that `count` stays folded) -/
-theorem facts (r : Ring α) (h : Inv r) :
+theorem facts (r : RingBuf α) (h : Inv r) :
     r.count ≤ r.buffer.length ∧
     r.end_ = (if r.begin_ + r.count < r.buffer.length then r.begin_ + r.count
               else r.begin_ + r.count - r.buffer.length) ∧
@@ -106,7 +106,7 @@ theorem count_of (b e c : Nat) (hb : b < c) (he : e < c) (k : Nat) (hk : 1 ≤ k
   · simp only [beq_iff_eq, hbe, if_false]
     rw [mod2 (by omega)]; split at hek <;> split <;> omega
 
-theorem count_put (r : Ring α) (x : α) (h : Inv r) :
+theorem count_put (r : RingBuf α) (x : α) (h : Inv r) :
     (r.put x).1.count = if r.isFull then r.buffer.length else r.count + 1 := by
   have hb := h.begin_lt; have he := h.end_lt; have hc := h.cap_pos
   obtain ⟨f1, f2, f3, f4⟩ := facts r h
@@ -125,7 +125,7 @@ theorem count_put (r : Ring α) (x : α) (h : Inv r) :
     rw [mod2 (a := r.end_ + 1) (by omega)]
     split at f2 <;> split <;> split <;> omega
 
-theorem put_inv (r : Ring α) (x : α) (h : Inv r) : Inv (r.put x).1 := by
+theorem put_inv (r : RingBuf α) (x : α) (h : Inv r) : Inv (r.put x).1 := by
   have hb := h.begin_lt; have hc := h.cap_pos
   constructor
   · simp [put]; exact hc
@@ -142,7 +142,7 @@ theorem getD_set_ne (l : List α) (i j : Nat) (x z : α) (h : i ≠ j) : (l.set 
 theorem getD_set_eq (l : List α) (i : Nat) (x z : α) (h : i < l.length) : (l.set i x).getD i z = x := by
   simp [List.getD, List.getElem?_set, h]
 
-theorem atIdx_put (r : Ring α) (x : α) (h : Inv r) (i : Nat) (hi : i < (r.put x).1.count) :
+theorem atIdx_put (r : RingBuf α) (x : α) (h : Inv r) (i : Nat) (hi : i < (r.put x).1.count) :
     (r.put x).1.atIdx i =
       if i + 1 < (r.put x).1.count then r.atIdx (if r.isFull then i + 1 else i) else x := by
   have hb := h.begin_lt; have he := h.end_lt; have hc := h.cap_pos
@@ -186,7 +186,7 @@ theorem atIdx_put (r : Ring α) (x : α) (h : Inv r) (i : Nat) (hi : i < (r.put 
       rw [this, getD_set_eq _ _ _ _ he]
 
 /-- **put**: FIFO push with overwrite of the oldest element when full. -/
-theorem put_spec (r : Ring α) (x : α) (h : Inv r) :
+theorem put_spec (r : RingBuf α) (x : α) (h : Inv r) :
     Inv (r.put x).1 ∧
     (r.put x).1.toList = (if r.isFull then r.toList.tail else r.toList) ++ [x] := by
   refine ⟨put_inv r x h, ?_⟩
@@ -225,7 +225,7 @@ theorem put_spec (r : Ring α) (x : α) (h : Inv r) :
 
 
 /-- when full, `Put` returns the element it displaces (the oldest) -/
-theorem put_returns_oldest (r : Ring α) (x : α) (h : Inv r) (hf : r.isFull = true) :
+theorem put_returns_oldest (r : RingBuf α) (x : α) (h : Inv r) (hf : r.isFull = true) :
     some (r.put x).2 = r.toList.head? := by
   have hb := h.begin_lt
   obtain ⟨f1, f2, f3, f4⟩ := facts r h
@@ -238,7 +238,7 @@ theorem put_returns_oldest (r : Ring α) (x : α) (h : Inv r) (hf : r.isFull = t
   rw [this]
   simp [put, atIdx, hend, Nat.mod_eq_of_lt hb]
 
-theorem count_get (r : Ring α) (h : Inv r) (hne : r.empty = false) :
+theorem count_get (r : RingBuf α) (h : Inv r) (hne : r.empty = false) :
     (r.get).1.count = r.count - 1 ∧ Inv (r.get).1 := by
   have hb := h.begin_lt; have he := h.end_lt; have hc := h.cap_pos
   obtain ⟨f1, f2, f3, f4⟩ := facts r h
@@ -266,7 +266,7 @@ theorem count_get (r : Ring α) (h : Inv r) (hne : r.empty = false) :
     rw [mod2 (by split <;> omega)]
     split at f2 <;> split <;> split <;> omega
 
-theorem atIdx_get (r : Ring α) (h : Inv r) (hne : r.empty = false) (i : Nat) (hi : i + 1 < r.count + 1) :
+theorem atIdx_get (r : RingBuf α) (h : Inv r) (hne : r.empty = false) (i : Nat) (hi : i + 1 < r.count + 1) :
     (r.get).1.atIdx i = r.atIdx (i + 1) := by
   have hb := h.begin_lt; have hc := h.cap_pos
   obtain ⟨f1, _, _, _⟩ := facts r h
@@ -277,7 +277,7 @@ theorem atIdx_get (r : Ring α) (h : Inv r) (hne : r.empty = false) (i : Nat) (h
   split <;> (rw [mod2 (by omega)]; split <;> split <;> omega)
 
 /-- **get**: FIFO pop. -/
-theorem get_spec (r : Ring α) (h : Inv r) :
+theorem get_spec (r : RingBuf α) (h : Inv r) :
     (r.toList = [] → r.get = (r, none)) ∧
     (∀ y ys, r.toList = y :: ys → (r.get).2 = some y ∧ (r.get).1.toList = ys ∧ Inv (r.get).1) := by
   obtain ⟨f1, f2, f3, f4⟩ := facts r h
@@ -319,7 +319,7 @@ inductive Out (α : Type) where
   deriving DecidableEq
 
 /-- implementation step with the observation the specification constrains -/
-def step (r : Ring α) : Op α → Ring α × Out α
+def step (r : RingBuf α) : Op α → RingBuf α × Out α
   | .put x => let (r', o) := r.put x; (r', .displaced (if r.isFull then some o else none))
   | .get => let (r', o) := r.get; (r', .got o)
   | .at i => (r, .value (if i < r.count then some (r.atIdx i) else none))
@@ -334,7 +334,7 @@ def specStep (cap : Nat) (l : List α) : Op α → List α × Out α
   | .isFull => (l, .flag (l.length == cap))
   | .isEmpty => (l, .flag l.isEmpty)
 
-def run (r : Ring α) : List (Op α) → List (Out α)
+def run (r : RingBuf α) : List (Op α) → List (Out α)
   | [] => []
   | op :: ops => let (r', o) := step r op; o :: run r' ops
 
@@ -342,7 +342,7 @@ def specRun (cap : Nat) (l : List α) : List (Op α) → List (Out α)
   | [] => []
   | op :: ops => let (l', o) := specStep cap l op; o :: specRun cap l' ops
 
-theorem step_refines (r : Ring α) (h : Inv r) (op : Op α) :
+theorem step_refines (r : RingBuf α) (h : Inv r) (op : Op α) :
     Inv (step r op).1 ∧ (step r op).1.buffer.length = r.buffer.length ∧
     (step r op).1.toList = (specStep r.buffer.length r.toList op).1 ∧
     (step r op).2 = (specStep r.buffer.length r.toList op).2 := by
@@ -407,7 +407,7 @@ theorem step_refines (r : Ring α) (h : Inv r) (op : Op α) :
 
 /-- **Refinement, all histories**: from any state satisfying the invariant, every operation sequence
     yields exactly the observations of the bounded FIFO started from the ring's contents. -/
-theorem run_refines (ops : List (Op α)) : ∀ (r : Ring α), Inv r →
+theorem run_refines (ops : List (Op α)) : ∀ (r : RingBuf α), Inv r →
     run r ops = specRun r.buffer.length r.toList ops := by
   induction ops with
   | nil => intro r _; rfl
@@ -419,8 +419,8 @@ theorem run_refines (ops : List (Op α)) : ∀ (r : Ring α), Inv r →
 
 /-- … in particular from a new ring of any capacity ≥ 1. -/
 theorem run_new_refines (z : α) (cap : Nat) (hc : 0 < cap) (ops : List (Op α)) :
-    run (Ring.new z cap) ops = specRun cap [] ops := by
+    run (RingBuf.new z cap) ops = specRun cap [] ops := by
   rw [run_refines ops _ (new_inv z cap hc), new_toList]
-  simp [Ring.new]
+  simp [RingBuf.new]
 
-end Ring
+end RingBuf
